@@ -253,6 +253,13 @@ func (fr *Frame) evalModifies(cl *Clause, ctx *evalCtx) (locs []*Loc, err error)
 				efail("elems() of non-slice")
 			}
 			locs = append(locs, &Loc{kind: locElem, ref: sArr(s.t), idx: "*", root: fr.eng.elemRoot(st.Elem()), typ: st.Elem()})
+		case e.Kind == "call" && e.Args[0].Kind == "ident" && e.Args[0].Name == "heaps":
+			// heaps(Type): every field of every object of that struct type
+			t := fr.eng.parseType(e.Args[1].String())
+			if t == nil || structOf(t) == nil {
+				efail("heaps(%s): unknown struct type", e.Args[1])
+			}
+			locs = append(locs, &Loc{kind: locField, ref: "*", root: fr.eng.fieldRoot(t), typ: t})
 		case e.Kind == "call" && e.Args[0].Kind == "ident" && e.Args[0].Name == "heap":
 			// heap(Type.field): the field of every object of that type
 			name := e.Args[1].String()
